@@ -233,3 +233,11 @@ def c15_real_inf_in_complex_row_dtype(w):
     return (w['what'] == _CELL and k.get('axis') == 0 and k.get('layout') == 'multi' and k.get('row_kind') == 'c'
             and k.get('line_kind') == 'f' and k.get('has_inf') is True
             and k.get('fn') in ('sum', 'prod', 'mean', 'cumsum', 'cumprod'))
+
+
+@predicate
+def c15_grown_frame_object_row_dtype(w):
+    """a FrameGO that received columns of different dtypes one at a time consolidates its rows to object where the same frame built
+    at once resolves a common dtype; reductions through that row dtype differ (or raise)"""
+    k = w['klass']
+    return w['what'] == 'grown_frame_reduces_differently' and k.get('grown_rows_consolidate_to_object') is True
